@@ -2133,14 +2133,17 @@ def c07(ctx):
     if 'cols_cdc' in EXPR:
         abc, xyz = [97, 98, 99], [120, 121, 122]
         base = [('push', 0, 0, [abc, xyz])] * 10 + [('merge', 1, [0]), ('push', 1, 0, [abc, xyz])]
-        rcases = [('cols_cdc', base + [('trypush', 1, 0, [abc, [0, 9, 9]]), ('push', 1, 0, [abc, xyz]), ('push', 1, 0, [abc]), ('read', 1)]),
-                  ('cols_cdc', base + [('trypush', 1, 0, [[0, 9, 9], xyz]), ('push', 1, 0, [abc, xyz]), ('read', 1)])]   # first cell refused: clean
+        rcases = []
+        for nm_ in ('cols_cdc', 'con_sl_cdc'):
+            if nm_ not in EXPR: continue
+            rcases += [(nm_, base + [('trypush', 1, 0, [abc, [0, 9, 9]]), ('push', 1, 0, [abc, xyz]), ('push', 1, 0, [abc]), ('read', 1)]),
+                       (nm_, base + [('trypush', 1, 0, [[0, 9, 9], xyz]), ('push', 1, 0, [abc, xyz]), ('read', 1)])]   # first cell refused: clean
         before = len(res.failures); nb = len(res.corr)
         run_regions(ctx, res, rcases, oracle, 'full')
         for f in res.failures[before:]:
             h = f.get('history', [])
             if any(x.startswith('trypush') and '[61,62,63],[0,9,9]' in x for x in h) and not f.get('known'):
-                mo_fail = oracle(EXPR['cols_cdc'], rcases[0][1], project(rcases[0][1], [m.split(' ') for m in f.get('model', [])], 'full'), None) if f.get('model') else 'no model run'
+                mo_fail = oracle(EXPR[f['entry']], rcases[0][1], project(rcases[0][1], [m.split(' ') for m in f.get('model', [])], 'full'), None) if f.get('model') else 'no model run'
                 if not mo_fail: f['known'] = known_by_class('refused-cell-in-columns', ctx.prop)
         # the model goes on from the untouched state, the implementation from the damaged one: that disagreement is the finding itself
         res.corr[nb:] = [c for c in res.corr[nb:] if not any(x.startswith('trypush') and '[61,62,63],[0,9,9]' in x for x in c.get('history', []))]
